@@ -159,6 +159,9 @@ class TransposeIndexRule(AbstractBinaryRule):
             raise NoReduction
 
         dtype = right.out_promoted_dtype
+        if any(leaf.dtype != dtype for leaf in jax.tree.leaves(right.in_structure())):
+            # a single diagonal of the promoted dtype would widen the narrower leaves
+            raise NoReduction
         shapes = {leaf.shape for leaf in jax.tree.leaves(right.in_structure())}
         if len(shapes) > 1:
             raise NoReduction
